@@ -172,6 +172,14 @@ func Run(r *core.Run) {
 	patch2 := []any{ops.ParseJSON(`{"action":"add-also-known-as","uris":["https://attacker.example/"]}`)}
 	joseHeaders := []string{"jku", "publicKeyJwk", "x5u", "x5c", "x5t", "x5t#S256", "typ", "cty", "crit", "b64", "jwk", "zip", "enc", "nonce", "url"}
 
+	type fixture struct {
+		kt     string
+		typ    operation.Type
+		suffix string
+		req    []byte
+		prev   *protocol.ResolutionModel
+	}
+	var fixtures []fixture
 	for _, kt := range keys.Types {
 		rec, upd := keys.New(kt, 0), keys.New(kt, 1)
 		other := keys.New(kt, 5)
@@ -238,6 +246,7 @@ func Run(r *core.Run) {
 			var ts []tampered
 			add := func(id string, b []byte) { ts = append(ts, tampered{fmt.Sprintf("%s/%s/%s", typ, kt, id), b}) }
 			add("valid", validBytes)
+			fixtures = append(fixtures, fixture{kt, typ, suffix, validBytes, prev})
 			// 1. signature bits
 			for i := 0; i < len(sig)*8; i++ {
 				s2 := append([]byte{}, sig...)
@@ -458,7 +467,11 @@ func Run(r *core.Run) {
 					hv = `"v"`
 				}
 				add("header/extra-"+h, ops.Bytes(build(signer, []byte(fmt.Sprintf(`{"alg":%q,%q:%s}`, signer.Alg(), h, hv)), nil, patch)))
+				for vi, ov := range []string{`null`, `""`, `0`, `false`} {
+					add(fmt.Sprintf("header/extra-%s-value-%d", h, vi), ops.Bytes(build(signer, []byte(fmt.Sprintf(`{"alg":%q,%q:%s}`, signer.Alg(), h, ov)), nil, patch)))
+				}
 			}
+			add("header/extra-unregistered-null", ops.Bytes(build(signer, []byte(fmt.Sprintf(`{"alg":%q,"other":null}`, signer.Alg())), nil, patch)))
 			add("header/kid-allowed", ops.Bytes(build(signer, []byte(fmt.Sprintf(`{"alg":%q,"kid":"k"}`, signer.Alg())), nil, patch)))
 			for _, a := range []string{`"none"`, `""`, `"HS256"`, `"RS256"`, `"PS256"`, `"ES256K-R"`, `null`, `5`, `["ES256"]`, `"es256"`, `"` + keys.Algs[otherType.Type] + `"`} {
 				add("header/alg-"+a, ops.Bytes(build(signer, []byte(`{"alg":`+a+`}`), nil, patch)))
@@ -553,6 +566,53 @@ func Run(r *core.Run) {
 			}
 		}
 	}
+	// protocols whose list of signature algorithms is shorter than what their key algorithms could sign with: every genuine
+	// operation under every such pair of lists - an algorithm that is not listed is not allowed, whatever keys are
+	type lists struct {
+		name       string
+		algs, keys []string
+	}
+	all := ops.Proto()
+	ls := []lists{{"library-v1.0-parameters", []string{"EdDSA", "ES256", "ES256K"}, []string{"Ed25519", "P-256", "P-384", "secp256k1"}},
+		{"none-listed", []string{}, all.KeyAlgorithms}}
+	for _, a := range all.SignatureAlgorithms {
+		ls = append(ls, lists{"only-" + a, []string{a}, all.KeyAlgorithms})
+		var rest []string
+		for _, b := range all.SignatureAlgorithms {
+			if b != a {
+				rest = append(rest, b)
+			}
+		}
+		ls = append(ls, lists{"all-but-" + a, rest, all.KeyAlgorithms})
+	}
+	for _, l := range ls {
+		lp := ops.Proto()
+		lp.SignatureAlgorithms, lp.KeyAlgorithms = l.algs, l.keys
+		lapp := operationapplier.New(lp, operationparser.New(lp), doccomposer.New())
+		for _, f := range fixtures {
+			f := f
+			id := fmt.Sprintf("algorithm-lists/%s/%s/%s", l.name, f.typ, f.kt)
+			v := judge(f.typ, f.req, l.algs)
+			r.Case(id, func() *core.Fail {
+				det := map[string]any{"request": string(f.req), "predicate": v, "signature_algorithms": l.algs, "key_algorithms": l.keys}
+				for _, at := range []uint64{500, 0, 1001} {
+					an := &operation.AnchoredOperation{Type: f.typ, UniqueSuffix: f.suffix, OperationRequest: f.req, TransactionTime: at, TransactionNumber: 2}
+					if res, err := lapp.Apply(an, f.prev); err == nil && res != nil && !v.Auth {
+						return &core.Fail{Key: id, What: fmt.Sprintf("operation whose algorithm is not in the protocol's list %v changed the state (anchored at %d; %s)", l.algs, at, v.Why), Detail: det}
+					}
+				}
+				return nil
+			})
+			r.Observe(id)
+			if v.Auth {
+				r.Class("algorithm-lists-authorized")
+			} else {
+				r.Class("algorithm-lists-unauthorized")
+			}
+		}
+	}
+	r.Require("algorithm-lists-authorized", 30)
+	r.Require("algorithm-lists-unauthorized", 30)
 	r.Require("authorized", 30)
 	r.Require("unauthorized", 5000)
 }
